@@ -203,6 +203,11 @@ DEFAULT_QUIC_SPEC = dict(
 )
 
 
+class _P(bytes):
+    """protected packet bytes + the CRYPTO / STREAM data it carries in frame order: [("c"|"s", data), ...]"""
+    parts = ()
+
+
 class QuicConn:
     """.datagrams  [(is_server, udp_payload, [stream chunks carried, in order])]
        .keylog     NSS key-log lines"""
@@ -249,6 +254,7 @@ class QuicConn:
         self.issued = {False: [], True: []}                        # CIDs issued BY dir (for use by the peer)
         self.token = b""
         self.datagrams = []
+        self.meta = []             # per datagram: CRYPTO and STREAM data in frame order [("c"|"s", data), ...]
         self.pkt_log = []          # (is_server, kind, pn, pn_len, gen) per packet, for C15/C16 observation
         self.features = set()
         self._handshake()
@@ -290,7 +296,7 @@ class QuicConn:
             self.largest[k] = pn
         return pn, pn_len
 
-    def packet(self, kind, srv, frames: bytes, pn=None, pn_len=None, dcid=None, scid=None, spin=None):
+    def packet(self, kind, srv, frames: bytes, pn=None, pn_len=None, dcid=None, scid=None, spin=None, parts=()):
         """kind in initial|handshake|early|app -> protected packet bytes"""
         space = {"initial": "i", "handshake": "h", "early": "a", "app": "a"}[kind]
         pn, pn_len = self._pn(space, srv, pn, pn_len)
@@ -339,7 +345,9 @@ class QuicConn:
                 self.features.add("cid_coincidence")
             break
         self.pkt_log.append({"srv": srv, "kind": kind, "pn": pn, "pn_len": pn_len, "gen": gen, "key": keys.key, "iv": keys.iv, "hp": keys.hp})
-        return bytes(pkt)
+        out = _P(pkt)
+        out.parts = list(parts)
+        return out
 
     def all_cids(self):
         out = {self.odcid, self.c_scid, self.s_scid} | set(self.issued[False]) | set(self.issued[True])
@@ -353,11 +361,12 @@ class QuicConn:
 
     def dgram(self, srv, *pkts, chunks=()):
         self.datagrams.append((srv, b"".join(pkts), list(chunks)))
+        self.meta.append([x for p in pkts for x in getattr(p, "parts", ())])
 
     # ---- handshake according to the spec
     def _crypto_frames(self, data, nsplit, shuffle):
         if not nsplit:
-            return [f_crypto(0, data)]
+            return [(f_crypto(0, data), ("c", data))]
         nsplit = min(nsplit, len(data) - 1)
         cuts = sorted(self.rnd.sample(range(1, len(data)), nsplit))
         parts, prev = [], 0
@@ -368,7 +377,7 @@ class QuicConn:
             self.rnd.shuffle(parts)
             self.features.add("crypto_ooo")
         self.features.add("crypto_split")
-        return [f_crypto(o, d) for o, d in parts]
+        return [(f_crypto(o, d), ("c", d)) for o, d in parts]
 
     def _client_initials(self, ch, early_chunks):
         """ClientHello in one or several Initial packets/datagrams, each datagram padded to >= 1200 bytes."""
@@ -377,13 +386,13 @@ class QuicConn:
         per_pkt = max(1, -(-len(frs) // 2)) if sp["split_ch"] >= 2 else len(frs)
         groups = [frs[i:i + per_pkt] for i in range(0, len(frs), per_pkt)]
         for gi, g in enumerate(groups):
-            fr = b"".join(g)
+            fr = b"".join(f for f, _ in g)
             pad = max(0, 1200 - len(fr))
-            pk = [self.packet("initial", False, fr + b"\x00" * pad)]
+            pk = [self.packet("initial", False, fr + b"\x00" * pad, parts=[p for _, p in g])]
             chunks = []
             if gi == len(groups) - 1 and early_chunks:
                 d = early_chunks.pop(0)
-                pk.append(self.packet("early", False, f_stream(0, d, off=0)))
+                pk.append(self.packet("early", False, f_stream(0, d, off=0), parts=[("s", d)]))
                 chunks = [d]
                 self.features.add("0rtt_coalesced")
             self.dgram(False, *pk, chunks=chunks)
@@ -395,7 +404,7 @@ class QuicConn:
         if sp["retry"]:
             self.features.add("retry")
             fr = f_crypto(0, ch)
-            self.dgram(False, self.packet("initial", False, fr + b"\x00" * max(0, 1200 - len(fr))))
+            self.dgram(False, self.packet("initial", False, fr + b"\x00" * max(0, 1200 - len(fr)), parts=[("c", ch)]))
             new_scid = rbytes(rnd, max(sp["s_scid_len"], 1) if sp["s_scid_len"] else 8)
             tok = rbytes(rnd, 24)
             self.dgram(True, self.retry_packet(new_scid, tok))
@@ -407,20 +416,21 @@ class QuicConn:
         self._client_initials(ch, early_chunks)
         off = sum(len(c) for c in [])  # 0-RTT stream offset bookkeeping is irrelevant for the export
         for i, d in enumerate(early_chunks):
-            self.dgram(False, self.packet("early", False, f_stream(0, d, off=1000 * (i + 1))), chunks=[d])
+            self.dgram(False, self.packet("early", False, f_stream(0, d, off=1000 * (i + 1)), parts=[("s", d)]), chunks=[d])
             self.features.add("0rtt")
         if sp["early"]:
             self.features.add("0rtt")
         self.dcid_for[False] = self.s_scid
         sh = self.server_hello()
         flight = self.server_hs_flight()
-        s_init = self.packet("initial", True, f_ack(0) + f_crypto(0, sh))
+        s_init = self.packet("initial", True, f_ack(0) + f_crypto(0, sh), parts=[("c", sh)])
         hs_frames = self._crypto_frames(flight, sp["split_shs"], False)
         if sp["split_shs"]:
             half = max(1, len(hs_frames) // 2)
-            s_hs = [self.packet("handshake", True, b"".join(hs_frames[:half])), self.packet("handshake", True, b"".join(hs_frames[half:]))]
+            s_hs = [self.packet("handshake", True, b"".join(f for f, _ in hs_frames[:half]), parts=[p for _, p in hs_frames[:half]]),
+                    self.packet("handshake", True, b"".join(f for f, _ in hs_frames[half:]), parts=[p for _, p in hs_frames[half:]])]
         else:
-            s_hs = [self.packet("handshake", True, b"".join(hs_frames))]
+            s_hs = [self.packet("handshake", True, b"".join(f for f, _ in hs_frames), parts=[p for _, p in hs_frames])]
         hl = hashlib.new(self.h).digest_size
         c_fin = hs(20, rbytes(rnd, hl))
         if sp["hs_coalesce"]:
@@ -428,13 +438,13 @@ class QuicConn:
             self.dgram(True, s_init, s_hs[0])
             for p in s_hs[1:]:
                 self.dgram(True, p)
-            self.dgram(False, self.packet("initial", False, f_ack(0)), self.packet("handshake", False, f_ack(0) + f_crypto(0, c_fin)))
+            self.dgram(False, self.packet("initial", False, f_ack(0)), self.packet("handshake", False, f_ack(0) + f_crypto(0, c_fin), parts=[("c", c_fin)]))
         else:
             self.dgram(True, s_init)
             for p in s_hs:
                 self.dgram(True, p)
             self.dgram(False, self.packet("initial", False, f_ack(0) + b"\x00" * 1150))
-            self.dgram(False, self.packet("handshake", False, f_ack(0) + f_crypto(0, c_fin)))
+            self.dgram(False, self.packet("handshake", False, f_ack(0) + f_crypto(0, c_fin), parts=[("c", c_fin)]))
         self.dgram(True, self.packet("app", True, f_handshake_done() + f_ack(0)))
 
     # ---- application phase
@@ -490,6 +500,7 @@ class QuicConn:
                 self.features.add("coalesced_app")
                 continue
             body = b""
+            pparts = []
             nfr = len(pk["fr"])
             for i, fd in enumerate(pk["fr"]):
                 fd = list(fd)
@@ -499,7 +510,10 @@ class QuicConn:
                     fd[2] = True
                 b, truth = encode_frame(fd, rnd)
                 body += b
+                if fd[0] == "crypto":
+                    pparts.append(("c", truth["data"]))
                 if fd[0] == "stream":
+                    pparts.append(("s", truth["data"]))
                     chunks.append(truth["data"])
                     if len([x for x in pk["fr"] if x[0] == "stream"]) > 1:
                         self.features.add("multi_stream")
@@ -510,7 +524,7 @@ class QuicConn:
                 self.features.add("pn_gap")
             pn_len = pk.get("pnl") or None
             before = len(self.pkt_log)
-            pkts.append(self.packet("app", d, body, pn=pn, pn_len=pn_len))
+            pkts.append(self.packet("app", d, body, pn=pn, pn_len=pn_len, parts=pparts))
             if self.pkt_log[before]["pn_len"] > 1:
                 self.features.add("pn_len>1")
         self.dgram(d, *pkts, chunks=chunks)
